@@ -392,8 +392,8 @@ def corr_selector(hbin, wd, tier, seed, sizes=((16, 8), (32, 40))):
 def check_C02(tier, seed, replay=None):
     # the hints oracle (a storage that returns only what each Select asked for) on selector pairs:
     # a selector must ask for its own range even when the same matchers occur twice in a query
-    return ref_family_check("C02", tier, seed, [("ref", "selector", 3000), ("ref", "selpair", 1500), ("hints", "selpair", 800), ("hints", "subpairs", 500), ("dist", "selector", 800)],
-                            [("ref", "selector", 60000), ("ref", "selpair", 30000), ("hints", "selpair", 20000), ("hints", "subpairs", 10000), ("dist", "selector", 15000)], corr=corr_selector)
+    return ref_family_check("C02", tier, seed, [("ref", "selector", 3000), ("ref", "selpair", 1500), ("hints", "selpair", 800), ("hints", "subpairs", 500), ("dist", "selector", 800), ("ref", "func", 600)],
+                            [("ref", "selector", 60000), ("ref", "selpair", 30000), ("hints", "selpair", 20000), ("hints", "subpairs", 10000), ("dist", "selector", 15000), ("ref", "func", 10000)], corr=corr_selector)
 
 
 def corr_range(hbin, wd, tier, seed):
@@ -553,8 +553,8 @@ def check_C19(tier, seed, replay=None):
 
 
 def check_C01(tier, seed, replay=None):
-    return ref_family_check("C01", tier, seed, [("", 5000), ("deep", 2000), ("noties", 1500), ("epoch:", 800), ("subpairs", 600), ("nans", 1000)],
-                            [("", 100000), ("deep", 40000), ("noties", 30000), ("func", 20000), ("bin", 20000), ("agg", 20000), ("range", 20000), ("epoch:", 20000), ("epoch:deep", 10000), ("subpairs", 15000), ("nans", 20000)],
+    return ref_family_check("C01", tier, seed, [("", 5000), ("deep", 2000), ("noties", 1500), ("epoch:", 800), ("subpairs", 600), ("nans", 1000), ("hist", 600)],
+                            [("", 100000), ("deep", 40000), ("noties", 30000), ("func", 20000), ("bin", 20000), ("agg", 20000), ("range", 20000), ("epoch:", 20000), ("epoch:deep", 10000), ("subpairs", 15000), ("nans", 20000), ("hist", 10000)],
                             corr=corr_core("C01", ("sel", "bin", "func", "agg", "tree")))
 
 
@@ -594,7 +594,7 @@ def check_C06(tier, seed, replay=None):
                            shards_quick=8, shards_thorough=32)
     # the operator trees of C06_pinned_subtree_is_evaluated_once (step-invariant subtrees, @ on selectors)
     corr = _corr_multi(corr, corr_h, corr_core("C06", ("tree",)))
-    return ref_family_check("C06", tier, seed, [("func", 4000), ("epoch:func", 600), ("hist", 500), ("subpairs", 500)], [("func", 80000), ("deep", 20000), ("epoch:func", 15000), ("hist", 10000), ("subpairs", 10000)], corr=corr)
+    return ref_family_check("C06", tier, seed, [("func", 4000), ("epoch:func", 600), ("hist", 500), ("subpairs", 500), ("dist", "func", 600)], [("func", 80000), ("deep", 20000), ("epoch:func", 15000), ("hist", 10000), ("subpairs", 10000), ("dist", "func", 10000)], corr=corr)
 
 
 def check_C18(tier, seed, replay=None):
